@@ -228,6 +228,7 @@ def run_sequence(ctx, drv, cfgmod, ops, init, env, module_state):
     ref = Ref(init_cfg, init_defaults)
     if env["cuda"] or env["mps"]:
         ref.valid = False
+    model_ok = True
     for i, op in enumerate(ops):
         before = copy.deepcopy(cfgmod.config)
         dev_before = before.get("device", "<absent>")
@@ -279,10 +280,12 @@ def run_sequence(ctx, drv, cfgmod, ops, init, env, module_state):
         if "driver" in str(m.get("err", "")):
             raise RuntimeError(f"driver error {m}")
         stop = False
-        if m != json.loads(json.dumps(impl_view)):
+        if model_ok and m != json.loads(json.dumps(impl_view)):
             ctx.disagree("config-ops", {"init": init, "ops": ops[: i + 1]}, m, impl_view,
                          note=f"op #{i} {kind}")
-            stop = True
+            # the model has diverged: stop comparing with it, but keep driving the real module so
+            # that the property predicates can still find a failing input later in the history
+            model_ok = False
         # --- property predicates on the implementation --------------------------------
         case = {"init": init, "ops": ops[: i + 1], "env": env}
         if kind in ("set", "with"):
